@@ -292,13 +292,14 @@ func (m *c11Machine) open() {
 	ref, err := c11ReadAll(m.b.Store, pick.ID, c11T, false)
 	if err != nil {
 		now := time.Now()
-		if isConflict(err) {
-			// The reaper owns the write lock. That is fine if the first stream
-			// may have been force-closed meanwhile (descheduled past the
-			// timeout); it is a reap running next to an open stream otherwise.
+		if isConflict(err) || errors.Is(err, snapshot.ErrSnapshotNotFound) {
+			// The reaper owns the write lock, or has already consolidated this
+			// snapshot away. That is fine if the first stream may have been
+			// force-closed meanwhile (descheduled past the timeout); it is a
+			// reap running next to an open stream otherwise.
 			if s.holds(now) {
 				rc.Close()
-				m.fail("C11/reap-ran-with-open-stream", "a second Open of %s reports the reaper as lock owner %v after the first stream was opened, which cannot have timed out (timeout %v): %v", pick.ID, now.Sub(t0), c11T, err)
+				m.fail("C11/reap-ran-with-open-stream", "a second Open of %s fails because of the reaper %v after the first stream was opened, which cannot have timed out (timeout %v): %v", pick.ID, now.Sub(t0), c11T, err)
 			}
 			rc.Close()
 			m.rec.Label("second-open-raced-with-reap")
